@@ -337,6 +337,9 @@ func (a *Agent) Send(msg *Message) {
 	msg.From = a.Self
 	for _, dst := range a.route(msg.From) {
 		a.log.Debugf("Sending batch to %+v\n", dst.Name)
+		if simSend(a, dst, wire) {
+			continue
+		}
 		_ = a.gossip.SendReliable(dst, wire)
 	}
 }
